@@ -72,12 +72,20 @@ impl AmlGen<'_> {
                 Ty::Enum(items)
             }
             5 => {
-                let base = match self.t.draw(3) {
+                let base = match self.t.draw(4) {
                     0 => Ty::Int(*self.t.pick(&INT_KINDS)),
                     1 => Ty::Float,
+                    // an array whose element may match zero tokens
+                    2 if depth <= 2 => Ty::TStruct(self.members(depth + 2, true)),
                     _ => Ty::Int("uint"),
                 };
-                Ty::Arr(Box::new(base), 1 + self.t.draw(4) as usize)
+                // mostly small dimensions; a damaged or careless specification may carry a huge one
+                let dim = match self.t.draw(12) {
+                    0 => 40_000,
+                    1 => 2_000_000_000,
+                    _ => 1 + self.t.draw(4) as usize,
+                };
+                if matches!(base, Ty::TStruct(_)) { Ty::Arr(Box::new(base), dim) } else { Ty::Arr(Box::new(base), dim.min(5)) }
             }
             6 | 7 => {
                 let n = 1 + self.t.draw(4);
@@ -304,15 +312,28 @@ fn instance(g: &mut DocGen, ty: &Ty, out: &mut Vec<Item>, depth: u32) {
         }
         Ty::CharArr(n) => {
             let mut c = g.string_content();
-            while c.len() > *n {
-                c.pop();
+            if g.t.chance(1, 8) {
+                // longer than the array (the library diagnoses this or falls back to uninterpreted data), with a
+                // multi-byte character straddling the limit
+                while c.len() <= *n {
+                    c.push_str(g.t.pick_str(&["Größe", "°", "日本", "x", "😀"]));
+                }
+            } else {
+                while c.len() > *n {
+                    c.pop();
+                }
             }
             let lit = g.string_literal(&c);
             out.push(Item::Tok(lit));
         }
         Ty::Arr(base, n) => {
-            for _ in 0..*n {
+            if matches!(**base, Ty::TStruct(_)) {
+                // every element may be empty: emit content for the first one only
                 instance(g, base, out, depth + 1);
+            } else {
+                for _ in 0..*n {
+                    instance(g, base, out, depth + 1);
+                }
             }
         }
         Ty::Enum(items) => {
@@ -387,7 +408,12 @@ fn unknown_body(g: &mut DocGen, out: &mut Vec<Item>, depth: u32) {
             }
             4 | 5 => out.push(Item::Tok((*g.t.pick(&["SOME_IDENT", "x.y[3]", "ENUM_VAL", "UNKNOWN_TAG"])).to_string())),
             _ => {
-                if depth < 3 {
+                if depth < 3 && g.opts.ifdata_a2ml_block && g.t.chance(1, 6) {
+                    // a block named A2ML inside IF_DATA: the tokenizer hands its whole content over as one text token
+                    let mut node = Node { tag: "A2ML".to_string(), block: true, body: Vec::new(), name: None };
+                    node.body.push(Item::Tok((*g.t.pick(&["\"\"", "\"x\"", "abc", "\"a b\" 1", "struct { int; };"])).to_string()));
+                    out.push(Item::Node(node));
+                } else if depth < 3 {
                     let mut node = Node { tag: (*g.t.pick(&["Q", "SUB_BLOCK", "DAQ"])).to_string(), block: true, body: Vec::new(), name: None };
                     unknown_body(g, &mut node.body, depth + 1);
                     out.push(Item::Node(node));
